@@ -231,6 +231,17 @@ def strs (l : List String) : Val := .list (l.map .str)
 
 end Val
 
+mutual
+def Val.size : Val → Nat
+  | .none => 1
+  | .str _ => 1
+  | .list vs => 1 + Val.sizeL vs
+  | .node _ _ fs => 1 + Val.sizeL fs
+def Val.sizeL : List Val → Nat
+  | [] => 0
+  | v :: vs => v.size + Val.sizeL vs
+end
+
 /-! ## canonical dump (the observation compared with the real AST) -/
 
 def quoteStr (s : String) : String :=
